@@ -122,7 +122,8 @@ func fieldEdges(d fieldDomain) []int64 {
 	case "bool":
 		return []int64{0, 1}
 	case "freq":
-		xs = []int64{0, 99, 100, 101, 200, 1677721400, 1677721500, 1677721501, 1677721599, 1677721600, 1677721700, 3355443000, 3355443100, 3355443200, 4294967200, 4294967295}
+		xs = []int64{0, 99, 100, 101, 200, 1199999800, 1199999900, 1200000000, 1200000100, 1677721400, 1677721500, 1677721501, 1677721599, 1677721600, 1677721700,
+			2399999800, 2399999900, 2400000000, 2400000100, 2400000200, 2400000400, 3355443000, 3355443100, 3355443200, 4294967200, 4294967295}
 	case "dur":
 		xs = []int64{0, 1, -1, 3906249, 3906250, 3906251, 999999999, 1000000000, 4294967295 * 1000000000, 4294967296 * 1000000000, 4294967296*1000000000 - 1,
 			1<<63 - 1, -1 << 63, -1000000000, -3906250, 4294967295*1000000000 + 999999999}
